@@ -1,8 +1,190 @@
+/-
+  driver_gmx — JSON handlers around Demeter.GmxV1 (Decimal, `NumCtx.py` or exact) and Demeter.GmxV2
+  (`mode = "float"`: IEEE binary64 via Lean `Float`; `mode = "exact"`: rationals).
+  Numbers travel as strings: decimals or `n/d`; floats always as the exact `n/d` of their binary value.
+-/
 import Demeter.Drv.Json
+import Demeter.GmxV1
+import Demeter.GmxV2
 namespace Demeter.Drv
 open Demeter Lean
 
+namespace GmxD
+
+/-! ### v1 -/
+open GmxV1 in
+def envOf (j : Json) : Except String GmxV1.Env := do
+  let rows ← (← jArr j "rows").toList.mapM (fun r => do
+    pure ({ name := ← jStr r "name", price := ← jRat r "price", usdg := ← jRat r "usdg", weight := ← jRat r "weight" } : TokenRow))
+  let ts ← (← jArr j "tokenSet").toList.mapM (fun t => match t with
+    | .str s => pure s
+    | _ => throw "tokenSet: expected strings")
+  pure { rows := rows, tokenSet := ts, glpSupply := ← jRat j "glp", aum := ← jRat j "aum", usdgSupply := ← jRat j "usdg",
+         interval := ← jRat j "interval", glpPrice := ← jRat j "glp_price", wavaxPrice := ← jRat j "wavax_price" }
+
+def walletOf (j : Json) (k : String) : Except String Wallet := do
+  (← jArr j k).toList.mapM (fun p => match p with
+    | .arr #[.str t, v] => do pure (t, ← jRatOf v)
+    | _ => throw "wallet: expected [name, balance] pairs")
+
+def walletJ (w : Wallet) : Json := .arr (w.map (fun (k, v) => Json.arr #[.str k, ratJ v])).toArray
+
+def state1Of (j : Json) : Except String GmxV1.State := do
+  pure { glp := ← jRat j "glp", reward := ← jRat j "reward", wallet := ← walletOf j "wallet", actions := [] }
+
+def action1J : GmxV1.Action → Json
+  | .buy t a m => Json.mkObj [("kind", .str "buy"), ("token", .str t), ("token_amount", ratJ a), ("mint_amount", ratJ m)]
+  | .sell t g o => Json.mkObj [("kind", .str "sell"), ("token", .str t), ("glp_amount", ratJ g), ("token_out", ratJ o)]
+
+def state1J (s : GmxV1.State) : Json :=
+  Json.mkObj [("glp", ratJ s.glp), ("reward", ratJ s.reward), ("wallet", walletJ s.wallet),
+              ("actions", .arr (s.actions.map action1J).toArray)]
+
+def op1Of (j : Json) : Except String GmxV1.Op := do
+  match ← jStr j "kind" with
+  | "buy" => pure (.buy (← jStr j "tok") (← jNat j "dec") (← jRat j "amount"))
+  | "sell" => pure (.sell (← jStr j "tok") (← jNat j "dec") (← jRat j "amount"))
+  | "update" => pure .update
+  | k => throw s!"unknown op {k}"
+
+/-- branch tag of a step: fee branch of the pricing part (recomputed through the model's own functions) -/
+def tag1 (cx : NumCtx) (env : GmxV1.Env) (s : GmxV1.State) : GmxV1.Op → String
+  | .buy t d a => match GmxV1.addLiquidity cx env t d a with
+    | .ok (_, _, br) => br.name
+    | .error _ => "-"
+  | .sell t d g =>
+    let g' := if g = 0 then s.glp else g
+    match GmxV1.removeLiquidity cx env t d g' with
+    | .ok (_, _, br) => br.name
+    | .error _ => "-"
+  | .update => "-"
+
+def step1 (j : Json) : Except String Json := do
+  let cx := jCtx j
+  let env ← envOf (← jObj j "env")
+  let s ← state1Of (← jObj j "state")
+  let op ← op1Of (← jObj j "op")
+  let (r, s') := GmxV1.step cx env s op
+  let tag := tag1 cx env s op
+  match r with
+  | .ok v => pure (Json.mkObj [("outcome", .str "ok"), ("result", ratJ v), ("state", state1J s'), ("tag", .str tag)])
+  | .error e => pure (Json.mkObj [("outcome", .str e.name), ("state", state1J s'), ("tag", .str tag)])
+
+def fee1 (j : Json) : Except String Json := do
+  let cx := jCtx j
+  let env ← envOf (← jObj j "env")
+  let tok ← jStr j "tok"
+  let usdg ← jRat j "usdg"
+  let inc ← jBool j "increase"
+  match GmxV1.feeBps cx env tok usdg inc with
+  | .error e => pure (Json.mkObj [("outcome", .str e.name)])
+  | .ok (f, br) =>
+    let tgt := match GmxV1.targetAmount cx env tok with | .ok t => t | .error _ => 0
+    pure (Json.mkObj [("outcome", .str "ok"), ("fee", ratJ f), ("branch", .str br.name), ("target", ratJ tgt)])
+
+def vaultFee1 (j : Json) : Except String Json := do
+  let initial ← jNat j "initial"; let delta ← jNat j "delta"
+  let weight ← jNat j "weight"; let supply ← jNat j "supply"; let total ← jNat j "total"
+  let inc ← jBool j "increase"
+  if total = 0 then throw "total weight 0" else
+  let t := GmxV1.vaultTarget weight supply total
+  pure (Json.mkObj [("target", natJ t), ("fee", natJ (GmxV1.vaultFeeBps initial delta t Gen.gmxMintBurnFeeBps Gen.gmxTaxBps inc))])
+
+def balance1 (j : Json) : Except String Json := do
+  let cx := jCtx j
+  let env ← envOf (← jObj j "env")
+  let s ← state1Of (← jObj j "state")
+  pure (Json.mkObj [("net_value", ratJ (GmxV1.netValue cx env s)), ("glp", ratJ s.glp), ("reward", ratJ s.reward)])
+
+/-! ### v2, generic in the number type -/
+
+structure NumIO (α : Type) where
+  ofRat : Rat → α
+  toJ : α → Json
+
+def floatJ (f : Float) : Json :=
+  match floatToRat? f with
+  | some r => ratJ r
+  | none => .str (if f.isNaN then "nan" else if f > 0 then "inf" else "-inf")
+
+def floatIO : NumIO Float := { ofRat := ratToFloat, toJ := floatJ }
+def ratIO : NumIO Rat := { ofRat := id, toJ := ratJ }
+
+section
+variable {α : Type} [Add α] [Sub α] [Mul α] [Div α] [Neg α] [LT α] [LE α] [OfNat α 0] [DecidableLT α] [DecidableLE α]
+
+def jNum (io : NumIO α) (j : Json) (k : String) : Except String α := do pure (io.ofRat (← jRat j k))
+
+def jNumOpt (io : NumIO α) (j : Json) (k : String) : Except String (Option α) :=
+  match jOpt j k with
+  | none => pure none
+  | some v => do pure (some (io.ofRat (← jRatOf v)))
+
+def cfgOf (io : NumIO α) (j : Json) : Except String (GmxV2.Config α) := do
+  pure { impactExponent := ← jNum io j "swapImpactExponentFactor", impactFactorPos := ← jNum io j "swapImpactFactorPositive",
+         impactFactorNeg := ← jNum io j "swapImpactFactorNegative", depositFeePos := ← jNum io j "depositFeeFactorForPositiveImpact",
+         depositFeeNeg := ← jNum io j "depositFeeFactorForNegativeImpact", withdrawFeePos := ← jNum io j "withdrawFeeFactorForPositiveImpact",
+         withdrawFeeNeg := ← jNum io j "withdrawFeeFactorForNegativeImpact" }
+
+def poolOf (io : NumIO α) (j : Json) : Except String (GmxV2.Pool α) := do
+  pure { longAmount := ← jNum io j "longAmount", shortAmount := ← jNum io j "shortAmount",
+         virtualLong := ← jNumOpt io j "virtualSwapInventoryLong", virtualShort := ← jNumOpt io j "virtualSwapInventoryShort",
+         poolValue := ← jNum io j "poolValue", supply := ← jNum io j "marketTokensSupply", impactPool := ← jNum io j "impactPoolAmount",
+         longPrice := ← jNum io j "longPrice", shortPrice := ← jNum io j "shortPrice" }
+
+def lpJ (io : NumIO α) (r : GmxV2.LPResult α) : Json :=
+  Json.mkObj [("long_amount", io.toJ r.longAmount), ("short_amount", io.toJ r.shortAmount), ("total_usd", io.toJ r.totalUsd),
+              ("gm_amount", io.toJ r.gmAmount), ("gm_usd", io.toJ r.gmUsd), ("long_fee", io.toJ r.longFee),
+              ("short_fee", io.toJ r.shortFee), ("fee_usd", io.toJ r.feeUsd), ("price_impact_usd", io.toJ r.priceImpactUsd)]
+
+def state2J (io : NumIO α) (s : GmxV2.State α) : Json :=
+  Json.mkObj [("amount", io.toJ s.amount), ("wallet", walletJ s.wallet),
+              ("actions", .arr (s.actions.map (fun (d, r) => Json.mkObj [("kind", .str (if d then "deposit" else "withdraw")), ("r", lpJ io r)])).toArray)]
+
+def step2 (io : NumIO α) (o : GmxV2.Ops α) (j : Json) : Except String Json := do
+  let cx := jCtx j
+  let cfg ← cfgOf io (← jObj j "config")
+  let ps ← poolOf io (← jObj j "pool")
+  let sj ← jObj j "state"
+  let s : GmxV2.State α := { amount := ← jNum io sj "amount", wallet := ← walletOf sj "wallet", actions := [] }
+  let lk ← jStr j "longKey"; let sk ← jStr j "shortKey"
+  let op ← jObj j "op"
+  match ← jStr op "kind" with
+  | "deposit" =>
+    let (r, s') := GmxV2.deposit o cx cfg ps lk sk s (← jNum io op "long") (← jNum io op "short")
+    match r with
+    | .ok (res, tag) => pure (Json.mkObj [("outcome", .str "ok"), ("result", lpJ io res), ("state", state2J io s'), ("tag", .str tag)])
+    | .error e => pure (Json.mkObj [("outcome", .str e.name), ("state", state2J io s'), ("tag", .str "-")])
+  | "withdraw" =>
+    let (r, s') := GmxV2.withdraw o cx cfg ps lk sk s (← jNumOpt io op "amount")
+    match r with
+    | .ok res => pure (Json.mkObj [("outcome", .str "ok"), ("result", lpJ io res), ("state", state2J io s'), ("tag", .str "-")])
+    | .error e => pure (Json.mkObj [("outcome", .str e.name), ("state", state2J io s'), ("tag", .str "-")])
+  | "balance" =>
+    match GmxV2.balance o ps s with
+    | .ok (nv, g, l, sh) => pure (Json.mkObj [("outcome", .str "ok"), ("net_value", io.toJ nv), ("gm_amount", io.toJ g),
+                                              ("long_amount", io.toJ l), ("short_amount", io.toJ sh)])
+    | .error e => pure (Json.mkObj [("outcome", .str e.name)])
+  | k => throw s!"unknown op {k}"
+end
+
+/-- exact mode: natural-number exponents only (the default exponent is 2) -/
+def exactPow (x y : Rat) : Rat := if y.den = 1 ∧ y.num ≥ 0 then x ^ y.num.toNat else 0
+
+def step2Dispatch (j : Json) : Except String Json :=
+  match j.getObjVal? "mode" with
+  | .ok (.str "exact") => step2 ratIO (GmxV2.ratOps exactPow) j
+  | _ => step2 floatIO GmxV2.floatOps j
+
+end GmxD
+
 def gmxHandlers : List (String × Handler) := []
-def gmxJHandlers : List (String × JHandler) := []
+def gmxJHandlers : List (String × JHandler) := [
+  ("gmx1.step", GmxD.step1),
+  ("gmx1.fee", GmxD.fee1),
+  ("gmx1.vaultFee", GmxD.vaultFee1),
+  ("gmx1.balance", GmxD.balance1),
+  ("gmx2.step", GmxD.step2Dispatch)
+]
 
 end Demeter.Drv
